@@ -35,6 +35,8 @@ func genC11(t *rapid.T) c11Case {
 		{{Kind: "mutident", R: 0, Title: "Alice Renamed"}, {Kind: "push", R: 0}, {Kind: "pull", R: 1}},
 		{{Kind: "new", R: 0, Title: "Feature: dark mode", Message: "please", Time: 1_700_000}, {Kind: "push", R: 0}, {Kind: "cachesize", R: 1, Size: 1}, {Kind: "pull", R: 1}, edit(1, "close", "")},
 		{edit(0, "labels", ""), {Kind: "push", R: 0}, {Kind: "pull", R: 1}, {Kind: "reopen", R: 1}},
+		// the cache is built from git by the running process (lost or outdated cache files), which then pulls an update and edits
+		{edit(0, "comment", "pushed while the other cache is rebuilt"), {Kind: "push", R: 0}, {Kind: "rebuild", R: 1}, {Kind: "pull", R: 1}, edit(1, "comment", "after rebuild and pull")},
 	}
 	segments[3][0].Edits[0].Add = []string{"bug", "ui"}
 	nSeg := rapid.IntRange(0, 3).Draw(t, "nSegments")
